@@ -85,6 +85,14 @@ theorem c01_never_reports_done_agent (h : c01Step k n learning sh g acts e = tru
     (ho : e.res = .stepOk o) : ∀ a ∈ keys o.obs, a ∉ g.R :=
   (c01Step_unpack h ho).notR
 
+/-- only participating agents are reported, and when `__all__` is reported every participating
+agent that was not yet reported done gets its final report in this output -/
+theorem c01_final_report (h : c01Step k n learning sh g acts e = true) (ho : e.res = .stepOk o) :
+    (∀ a ∈ keys o.obs, a ∈ participating k n learning) ∧
+    (o.allDone = true → ∀ a ∈ participating k n learning, a ∈ g.R ∨ a ∈ keys o.obs) :=
+  let u := c01Step_unpack h ho
+  ⟨u.part, u.final⟩
+
 /-- an action for an already-done agent is rejected, and the simulation was not advanced -/
 theorem c01_rejects_before_step (h : c01Step k n learning sh g acts e = true)
     (hb : ∃ p ∈ acts, p.1 ∈ g.R) :
